@@ -122,7 +122,7 @@ func isNilAnswers(arg AV) []Answer {
 // boundary functions of the statement rewriter: analysed one at a time.
 var rwBoundaries = []string{
 	"rewriteStmts", "rewriteStmt", "rewriteBlockStmt", "rewriteIfStmt", "rewriteSwitchStmt", "rewriteForStmt",
-	"rewriteYieldCall", "combineIfNecessary", "generateLastNormalIfNecessary", "checkYieldCall",
+	"rewriteYieldCall", "combineIfNecessary", "generateLastNormalIfNecessary",
 	"rewriteRanges", "rewriteBreakContinues", "rewriteReturnAndForSwitchInitStmtInYieldFun",
 	"rewriteYieldFunc", "rewriteYieldFuncBody", "rewriteYieldFuncResult", "rewriteRangeToForIter", "rewriteForRange", "rewriteYieldFrom", "rangeIter",
 	"collectYieldFunc", "rewriteFile", "rewriteAllFiles",
@@ -218,6 +218,11 @@ func (r *rwRT) interp(cfg rwConfig) *Interp {
 		fn := cc.Fn
 		if fn == nil {
 			return nil
+		}
+		// the type check of a yield's operand is followed on the path on which the operand fits (what it hands back
+		// — nothing, the operand, the call — is then whatever the code computes); the other path is RW.YIELDTYPE's
+		if fnPkgPath(fn) == "go/types" && (fn.Name() == "AssignableTo" || fn.Name() == "ConvertibleTo") && strings.Contains(cc.St.stackString(), "checkYieldCall") && cfg.root != nil && cfg.root.Name() != "checkYieldCall" {
+			return []Answer{{Ret: []AV{mkBool(true)}, NoEvent: true}}
 		}
 		// the path of a symbolic import spec (imports.SpecPath and the like), the spelling of its name
 		if len(cc.Args) == 1 {
